@@ -35,6 +35,9 @@ def run(ctx):
     if not behs:
         raise vlib.Broken("no behaviours")
     replay_family(ctx, "iface", behs, env=ENV, batch=4000)
+    # the same at scale (Scale.tla, instance ScaleI): 12 variables x 12 methods mocked in groups (more than a page of stub space)
+    from checks import life
+    life.scale(ctx, 16, 400, iface=True)
     ctx.cov["exhaustive"] = True
     ctx.cov["rule"] = ("every history of Mock(apply|stub)/Reset/Drop/GC/Call to the stated depth over 2 variables of a 3-method "
                        "interface (one initially nil, one holding a real implementation; the middle method in itab order unexported) "
